@@ -316,3 +316,34 @@ func worstStatus(s string) string {
 	}
 	return s
 }
+
+// isub / iadd: integer terms with trivial constant folding.
+func isub(a, b string) string {
+	if b == "0" {
+		return a
+	}
+	if x, ok := isIntLit(a); ok {
+		if y, ok := isIntLit(b); ok {
+			return intLit(new(big.Int).Sub(x, y))
+		}
+	}
+	if a == b {
+		return "0"
+	}
+	return sx("-", a, b)
+}
+
+func iadd(a, b string) string {
+	if b == "0" {
+		return a
+	}
+	if a == "0" {
+		return b
+	}
+	if x, ok := isIntLit(a); ok {
+		if y, ok := isIntLit(b); ok {
+			return intLit(new(big.Int).Add(x, y))
+		}
+	}
+	return sx("+", a, b)
+}
